@@ -7,6 +7,7 @@ import (
 	"fmt"
 	"io"
 	"strings"
+	"sync/atomic"
 
 	"github.com/maruel/panicparse/v2/stack"
 )
@@ -68,6 +69,41 @@ type ScanOp struct {
 	Final    string `json:"final"`
 	WithData bool   `json:"withData"`
 	Names    bool   `json:"names"`
+	// History is set when the fixed prelude of earlier ScanSnapshot calls (see
+	// historyPrelude) ran in this process right before this call: a result that
+	// depends on it is a result that depends on earlier calls.
+	History bool `json:"history,omitempty"`
+}
+
+var scanCalls int64
+
+// historyPrelude runs a fixed set of ScanSnapshot calls whose readers and
+// streams leave as much pending state as a call can leave behind: the last data
+// delivered together with EOF while the dump ended earlier in the buffer, a
+// reader that fails after the dump, a stream cut inside a dump, an indented
+// dump, a race report followed by text.  On an implementation without hidden
+// state shared between calls it has no effect on what follows.
+func historyPrelude(k int64) {
+	defer func() { recover() }()
+	dump := "goroutine 1 [running]:\nmain.f(0xc000012345)\n\t/a/b.go:12 +0x1\n\nexit status 2\ntrailing text\n"
+	race := "==================\nWARNING: DATA RACE\nRead at 0x00c000012345 by goroutine 8:\n  main.f()\n      /a/b.go:12 +0x1\n\nGoroutine 8 (running) created at:\n  main.main()\n      /a/b.go:3 +0x1\n==================\nafter\n"
+	cases := []struct {
+		data     string
+		final    error
+		withData bool
+		sched    []int
+	}{
+		{dump, io.EOF, true, nil},
+		{dump, errOther{7}, true, []int{40}},
+		{dump[:30], io.EOF, false, nil},
+		{"    " + strings.ReplaceAll(dump, "\n", "\n    "), io.EOF, true, []int{10, 10}},
+		{race, io.EOF, true, nil},
+	}
+	// one call per prelude (they rotate), so that whatever it leaves behind is
+	// met by the call under test and not by another prelude call
+	c := cases[int(k)%len(cases)]
+	rd := &SchedReader{data: []byte(c.data), sched: c.sched, final: c.final, withData: c.withData}
+	stack.ScanSnapshot(rd, io.Discard, &stack.Opts{NameArguments: true})
 }
 
 func (o *ScanOp) finalErr() error {
@@ -151,6 +187,10 @@ func errString(err error) string {
 
 // implScan runs the real ScanSnapshot (path guessing off) on a scripted reader.
 func implScan(op *ScanOp) (res ScanRes) {
+	if k := atomic.AddInt64(&scanCalls, 1); k%8 == 0 {
+		historyPrelude(k / 8)
+		op.History = true
+	}
 	data := []byte(op.Data.String())
 	rd := &SchedReader{data: data, sched: append([]int{}, op.Sched...), final: op.finalErr(), withData: op.WithData}
 	var fwd bytes.Buffer
